@@ -6,6 +6,7 @@
 import NiftyVerif.Lemmas.Response
 import NiftyVerif.Lemmas.ResponseLos7
 import NiftyVerif.Lemmas.Nft
+import NiftyVerif.Lemmas.ResponseSampling
 import NiftyVerif.Lemmas.LinOps
 import NiftyVerif.Props.C02
 
@@ -309,6 +310,37 @@ example : genEntryB [0, 5/6] [4, 13/6] 0 = false := by decide +kernel
 example : genEntryB [0, 5/6] [4, 13/6] (1/10000000) = true := by decide +kernel
 
 end los
+
+/-! ### nifty.re SamplingCartesianGridLOS (Model/ResponseSampling.lean: transcription of `sampling_los.py::_los`) -/
+section sampling
+open NiftyVerif.ResponseSampling
+
+/-- the sampled line of sight (`n` midpoint samples, `map_coordinates(order=1)`) is EXACT on affine fields: whenever every sampling
+    point lies inside the array (no nan), `_los` returns the field value at the midpoint of the segment (in index coordinates
+    `x·(shape−1)/shape/distances`) times `‖end − start‖` (that factor is applied outside the model) — any dimension, shape, `n > 0` -/
+theorem sampling_los_exact_affine (shape : List ℕ) (dist : List ℚ) (c0 : ℚ) (cs : List ℚ) (start stop : List ℚ) (n : ℕ)
+    (hn : 0 < n)
+    (hl1 : (mulV start (l2i shape dist)).length = cs.length) (hl2 : (mulV stop (l2i shape dist)).length = cs.length)
+    (hvalid : ∀ k, k < n → validCell shape
+      ((samplePoint n k (mulV start (l2i shape dist)) (mulV stop (l2i shape dist))).map Rat.floor) = true) :
+    samplingLos shape dist (fun idx => affL c0 cs (idx.map fun i : ℤ => (i : ℚ))) start stop n =
+      some (affL c0 cs (midV (mulV start (l2i shape dist)) (mulV stop (l2i shape dist)))) :=
+  samplingLos_exact_affine shape dist c0 cs start stop n hn hl1 hl2 hvalid
+
+/-- `map_coordinates(order=1)` reproduces every multi-affine field exactly at every point inside the array -/
+theorem sampling_interp_exact_multiaffine {d : ℕ} (f : MultiAff ℚ d) (shape : List ℕ) (p : List ℚ) (hp : p.length = d)
+    (hv : validCell shape (p.map Rat.floor) = true) :
+    mapCoord1 shape (fun idx => f.eval (idx.map fun i : ℤ => (i : ℚ))) p = some (f.eval p) :=
+  mapCoord1_multiaff f shape _ p hp hv (fun _ _ => rfl)
+
+-- non-vacuity: 1-D, three pixels, two samples, field 2 + 3·i: index-space segment [1/3, 5/3], midpoint 1, value 5
+example : samplingLos [3] [1] (fun idx => affL 2 [3] (idx.map fun i : ℤ => (i : ℚ))) [1/2] [5/2] 2 = some 5 := by decide +kernel
+example : validCell [3] ((samplePoint 2 1 (mulV [1/2] (l2i [3] [1])) (mulV [5/2] (l2i [3] [1]))).map Rat.floor) = true := by
+  decide +kernel
+-- a sampling point in the last cell row (index ≥ n−1): nan in the code, `none` in the model
+example : samplingLos [3] [1] (fun _ => 1) [1/2] [4] 2 = none := by decide +kernel
+
+end sampling
 
 /-! ### Nufft / Gridder / VariablePositionNufft: explicit Fourier sums on a rational lattice (Model/Nft.lean) -/
 section nft
